@@ -13,6 +13,7 @@ import Hpl.Spec.Shapes
 import Hpl.Model.Rewrite.Split
 import Hpl.Model.Rewrite.Refactor
 import Hpl.Model.Rewrite.Simplify
+import Hpl.Model.Parser
 /-! Line-protocol driver: one S-expression request per line on stdin, one canonical answer per line on stdout. -/
 open Hpl
 open Hpl.Codec
@@ -191,6 +192,23 @@ def handle (req : Sexp) : Sexp :=
     | none => match decPred x with
       | some p => encM (fun r => [encPred r]) (simplifyPred p)
       | none => errS "protocol" "simplify"
+  | .list [.atom "parse", .atom entry, .str text] =>
+    if entry == "expression" then encM (fun e => [encExpr e]) (parseExpression text)
+    else if entry == "predicate" then encM (fun p => [encPred p]) (parsePredicate text)
+    else if entry == "property" then encM (fun p => [encProperty p]) (parseProperty text)
+    else if entry == "specification" then encM (fun ps => ps.map encProperty) (parseSpecification text)
+    else errS "protocol" "parse entry"
+  | .list [.atom "printany", x] =>
+    let fmt : Rat → String := fun q => match floatRepr q with | some s => s | none => "<float>"
+    match decExpr x with
+    | some e => okS [.str e.print]
+    | none => match decPred x with
+      | some p => okS [.str p.print]
+      | none => match decProperty x with
+        | some p => okS [.str (p.print fmt)]
+        | none => match x with
+          | .list (.atom "spec" :: ps) => (match ps.mapM decProperty with | some ps => okS [.str (printSpec fmt ps)] | none => errS "protocol" "printany")
+          | _ => errS "protocol" "printany"
   | .list [.atom "ping"] => okS [.atom "pong"]
   | _ => errS "protocol" "unknown request"
 
